@@ -267,6 +267,7 @@ func (c *CEnv) evalIdent(e *CExpr) Val {
 		if x.model.Float == SXR {
 			return Val{T: mk("nan", SXR), Ty: tyFloat}
 		}
+		return Val{T: x.rnan(), Ty: tyFloat}
 	case "alloc":
 		return Val{T: c.state().alloc, Ty: tyInt}
 	}
@@ -505,6 +506,9 @@ func (c *CEnv) evalCall(e *CExpr) Val {
 		if e.Name == "isfinite" {
 			return Val{T: tTrue, Ty: tyBool}
 		}
+		if e.Name == "isnan" {
+			return Val{T: Eq(x.toReal(v), x.rnan()), Ty: tyBool}
+		}
 		return Val{T: tFalse, Ty: tyBool}
 	case "val": // real value of a finite float
 		need(1)
@@ -576,6 +580,17 @@ func (c *CEnv) evalCall(e *CExpr) Val {
 		k := c.eval(e.Args[1])
 		mt := m.Ty.Go.Underlying().(*types.Map)
 		return Val{T: x.mapHas(c.state(), m, k, mt), Ty: tyBool}
+	case "bit32":
+		need(1)
+		v := c.eval(e.Args[0])
+		return Val{T: mk("shl32", SBV32, mk("#x00000001", SBV32), v.T), Ty: &Ty{K: TBV32, Unsigned: true, Bits: 32}}
+	case "shr32", "shl32":
+		need(2)
+		a, b := c.eval(e.Args[0]), c.eval(e.Args[1])
+		return Val{T: mk(e.Name, SBV32, a.T, b.T), Ty: a.Ty}
+	case "uint":
+		need(1)
+		return c.eval(e.Args[0])
 	case "tz32":
 		need(1)
 		v := c.eval(e.Args[0])
@@ -681,7 +696,7 @@ func (c *CEnv) callSpec(e *CExpr, sf *SpecFunc, args []Val) Val {
 	rty := pe.cty(sf.Ret)
 	if !sf.Rec && !sf.Opaque {
 		// non-recursive spec functions are expanded in place
-		return Val{T: x.specBodyInstance(sf, flat), Ty: rty}
+		return Val{T: x.specBodyInstanceIn(sf, flat, c), Ty: rty}
 	}
 	x.usedSpecs[sf.Name] = true
 	name := "spec_" + sf.Name
@@ -691,7 +706,17 @@ func (c *CEnv) callSpec(e *CExpr, sf *SpecFunc, args []Val) Val {
 // specBodyInstance evaluates sf's body with parameters bound to the given
 // flattened argument terms.
 func (x *Exec) specBodyInstance(sf *SpecFunc, flat []*Term) *Term {
+	return x.specBodyInstanceIn(sf, flat, nil)
+}
+
+// specBodyInstanceIn: as specBodyInstance; a non-recursive spec function
+// expanded at a use site may read the heap of that site (ctx).
+func (x *Exec) specBodyInstanceIn(sf *SpecFunc, flat []*Term, ctx *CEnv) *Term {
 	pe := &CEnv{x: x, pkg: x.eng.pkgTypes[sf.Pkg], specMode: true, bound: map[string]Val{}}
+	if ctx != nil && !ctx.specMode {
+		pe.specMode = false
+		pe.st, pe.old, pe.inOld, pe.oldAlloc = ctx.st, ctx.old, ctx.inOld, ctx.oldAlloc
+	}
 	_, tys := x.specParamSorts(sf, pe)
 	i := 0
 	for k, p := range sf.Params {
